@@ -32,6 +32,10 @@ type propT struct {
 	Name string
 	Type string
 	Ref  string
+	// further fields of a real schema document that the generator has no use for (bounds, units, patterns, display
+	// data, defaults, presence rules): lines added under the type / under the property
+	TypeExtra []string
+	PropExtra []string
 }
 
 type objT struct {
@@ -60,10 +64,16 @@ func (d doc) yaml() string {
 		b.WriteString("\n")
 		for _, p := range o.Props {
 			fmt.Fprintf(&b, "            %s:\n              type:\n                type_id: %s\n", p.Name, p.Type)
+			for _, l := range p.TypeExtra {
+				fmt.Fprintf(&b, "                %s\n", l)
+			}
 			if p.Type == "ref" {
 				fmt.Fprintf(&b, "                id: %s\n", p.Ref)
 			}
 			b.WriteString("              required: true\n")
+			for _, l := range p.PropExtra {
+				fmt.Fprintf(&b, "              %s\n", l)
+			}
 		}
 	}
 	return b.String()
@@ -99,6 +109,16 @@ func docs() []doc {
 			out = append(out, doc{[]objT{{"alpha", pa}, {"beta", pb}}})
 		}
 	}
+	// full-featured property bodies: everything a schema document may say about a property besides its type id
+	rich := []propT{
+		{Name: "count", Type: "integer", TypeExtra: []string{"min: 0", "max: 9223372036854775807", "units: {base_unit: {name_short_singular: B, name_short_plural: B, name_long_singular: byte, name_long_plural: bytes}, multipliers: {1024: {name_short_singular: kB, name_short_plural: kB, name_long_singular: kilobyte, name_long_plural: kilobytes}}}"},
+			PropExtra: []string{"display: {name: Count, description: how many}", "default: \"5\"", "examples: [\"1\", \"2\"]"}},
+		{Name: "ratio", Type: "float", TypeExtra: []string{"min: -1.5", "max: 1.0e+19"}, PropExtra: []string{"required_if: [count]", "conflicts: [label]"}},
+		{Name: "spread", Type: "float", TypeExtra: []string{"min: -.inf", "max: .inf"}},
+		{Name: "label", Type: "string", TypeExtra: []string{"min: 1", "max: 18446744073709551615", "pattern: \"^[a-z]+$\""}, PropExtra: []string{"required_if_not: [count, ratio]", "disabled: true", "disabled_reason: not yet"}},
+		{Name: "flags", Type: "list", TypeExtra: []string{"items: {type_id: bool}", "min: 0.5", "max: 3"}},
+	}
+	out = append(out, doc{[]objT{{"alpha", rich}}}, doc{[]objT{{"alpha", rich[:2]}, {"beta", rich[2:]}}})
 	// names that are valid, distinct identifiers but compare equal or adjacent under case folding, prefixes of
 	// each other, and names with digits / underscores
 	for _, names := range [][4]string{
